@@ -34,6 +34,8 @@ type Mem struct {
 	Misrouted bool
 	MisAddr   uint32
 	inNested  bool
+	// Charge, when set, is called by the memory objects on every access of the instruction (wait states)
+	Charge func()
 }
 
 // cellProxy is one of the two memory objects the buses are populated with: it owns the 16-byte cells
@@ -72,6 +74,9 @@ func (p cellProxy) Read(a uint32) byte {
 	if p.m.inNested {
 		return p.m.Peek(a) // the object's own access: not part of the instruction's access log
 	}
+	if p.m.Charge != nil {
+		p.m.Charge() // slow memory: the object charges the CPU a wait state (its exported per-step cycle count)
+	}
 	foreign := p.check(a)
 	v := p.m.Read(a)
 	p.nested(a)
@@ -83,6 +88,9 @@ func (p cellProxy) Read(a uint32) byte {
 func (p cellProxy) Write(a uint32, v byte) {
 	if p.m.inNested {
 		return
+	}
+	if p.m.Charge != nil {
+		p.m.Charge()
 	}
 	if p.check(a) {
 		v = ^v
@@ -206,6 +214,8 @@ type Raw struct {
 	// the bus's debug/open-bus fields) with junk instead of zeroes; Save echoes it back. Nothing a Step
 	// does may depend on what an earlier Step left in those fields.
 	Dirt byte
+	// Charge: the memory objects add one to the interpreter's per-step cycle count on every access
+	Charge bool
 }
 
 func (r Raw) String() string {
@@ -276,6 +286,10 @@ func (p *Pri) Load(r Raw) {
 	c.C, c.Z, c.I, c.D, c.X, c.M, c.V, c.N = r.P&1, r.P>>1&1, r.P>>2&1, r.P>>3&1, r.P>>4&1, r.P>>5&1, r.P>>6&1, r.P>>7&1
 	c.E, c.Stopped, c.Interrupt, c.AllCycles = r.E, r.Stopped, r.Interrupt, r.AllCycles
 	p.dirt = r.Dirt
+	p.M.Charge = nil
+	if r.Charge {
+		p.M.Charge = func() { c.Cycles++ }
+	}
 	p.B.EA, p.B.Write = 0, false
 	if p.autoHooks {
 		p.cFrom.OnWDM, p.cFrom.OnPC, p.autoHooks = nil, nil, false
@@ -300,7 +314,7 @@ func (p *Pri) Load(r Raw) {
 func (p *Pri) Save() Raw {
 	c := p.C
 	return Raw{c.PC, c.SP, c.RA, c.RX, c.RY, c.RD, c.RAh, c.RAl, c.RXl, c.RYl, c.RDBR, c.RK,
-		c.C&1 | c.Z&1<<1 | c.I&1<<2 | c.D&1<<3 | c.X&1<<4 | c.M&1<<5 | c.V&1<<6 | c.N&1<<7, c.E, c.Stopped, c.Interrupt, c.AllCycles, p.dirt}
+		c.C&1 | c.Z&1<<1 | c.I&1<<2 | c.D&1<<3 | c.X&1<<4 | c.M&1<<5 | c.V&1<<6 | c.N&1<<7, c.E, c.Stopped, c.Interrupt, c.AllCycles, p.dirt, p.M.Charge != nil}
 }
 func (p *Pri) Step() (cy int, st bool, pn interface{}) {
 	defer func() { pn = recover() }()
@@ -362,6 +376,10 @@ func (p *Alt) Load(r Raw) {
 	c.StepInfo = cpualt.StepInfo{}
 	c.Bus.M = 0
 	p.dirt = r.Dirt
+	p.M.Charge = nil
+	if r.Charge {
+		p.M.Charge = func() { c.Cycles++ }
+	}
 	if p.autoHooks {
 		p.cFrom.OnWDM, p.cFrom.OnPC, p.autoHooks = nil, nil, false
 	}
@@ -382,7 +400,7 @@ func (p *Alt) Load(r Raw) {
 func (p *Alt) Save() Raw {
 	c := p.C
 	return Raw{c.PC, c.SP, c.RA, c.RX, c.RY, c.RD, c.RAh, c.RAl, c.RXl, c.RYl, c.RDBR, c.RK,
-		c.C&1 | c.Z&1<<1 | c.I&1<<2 | c.D&1<<3 | c.X&1<<4 | c.M&1<<5 | c.V&1<<6 | c.N&1<<7, c.E, c.Stopped, c.Interrupt, c.AllCycles, p.dirt}
+		c.C&1 | c.Z&1<<1 | c.I&1<<2 | c.D&1<<3 | c.X&1<<4 | c.M&1<<5 | c.V&1<<6 | c.N&1<<7, c.E, c.Stopped, c.Interrupt, c.AllCycles, p.dirt, p.M.Charge != nil}
 }
 func (p *Alt) Step() (cy int, st bool, pn interface{}) {
 	defer func() { pn = recover() }()
